@@ -177,7 +177,7 @@ func (tr *Translator) decFn(t types.Type) (dec, ok string) {
 	u.decl(ok, fmt.Sprintf("(declare-fun %s (JV) Bool)", ok))
 	if n, isNamed := t.(*types.Named); isNamed && n.Obj().Pkg() != nil && n.Obj().Pkg().Path() == "encoding/json" && n.Obj().Name() == "RawMessage" {
 		// json.RawMessage keeps the raw bytes of the value: decoding never fails and the bytes denote the value
-		u.decl("dec_rawmessage", fmt.Sprintf("(assert (forall ((v JV)) (! (and (%s v) (= (jv (%s v)) v) (not (= (sl_arr (%s v)) 0))) :pattern ((%s v)))))", ok, dec, dec, dec))
+		u.decl("dec_rawmessage", fmt.Sprintf("(assert (forall ((v JV)) (! (and (%s v) (= (jv (%s v)) v) (not (= (sl_arr (%s v)) 0)) (jWF (%s v))) :pattern ((%s v)))))", ok, dec, dec, dec, dec))
 	}
 	if it, isIface := t.Underlying().(*types.Interface); isIface && it.NumMethods() == 0 && !u.declSet["dec_iface_str"] {
 		// decoding into interface{}: a JSON string becomes a Go string (and nothing else does)
@@ -508,6 +508,10 @@ func (fc *fctx) jsonUnmarshal(cc *ssa.CallCommon, pos token.Pos) []*Val {
 		valN := u.freshConst("jval", "(Array "+ks+" "+vs+")")
 		tr.assume(fmt.Sprintf("(forall ((k String)) (! (= (select %s k) (> (oCnt %s k) 0)) :pattern ((select %s k))))", domN, J, domN))
 		tr.assume(fmt.Sprintf("(forall ((k String)) (! (=> (> (oCnt %s k) 0) (= (select %s k) (%s (oVal %s k)))) :pattern ((select %s k))))", J, valN, dec, J, valN))
+		if n, isNamed := mt.Elem().(*types.Named); isNamed && n.Obj().Name() == "RawMessage" {
+			// the raw text of a member of a well-formed text is a well-formed text
+			tr.assume(fmt.Sprintf("(forall ((k String)) (! (=> (> (oCnt %s k) 0) (jWF (select %s k))) :pattern ((select %s k))))", J, valN, valN))
+		}
 		tr.setComp(md, fmt.Sprintf("(store %s %s %s)", tr.cur.get(u, md), m, domN))
 		tr.setComp(mv, fmt.Sprintf("(store %s %s %s)", tr.cur.get(u, mv), m, valN))
 		ln := u.freshConst("jlen", "Int")
